@@ -140,8 +140,9 @@ def get_model(ob, timeout_s=20):
     for c in ob.pc:
         s.add(c)
     s.add(z3.Not(ob.goal))
-    from .values import str_axioms
-    s.add(*str_axioms())
+    if 'strU' in s.to_smt2():
+        from .values import str_axioms
+        s.add(*str_axioms())       # (only where strings occur: a quantified axiom turns `sat` into `unknown` elsewhere)
     if s.check() == z3.sat:
         return s.model()
     return None
